@@ -1,5 +1,6 @@
 (* C01 - property theorems only (statements + Print Assumptions). *)
-From HV Require Import Prelude Tracts Tiling C01_Model C01_Check C01_Proofs C01_Bsearch C01_Kernel.
+From HV Require Import Prelude Tracts Tiling C01_Model C01_Check C01_Proofs C01_Bsearch C01_Kernel
+  C02_Tiling C02_Generations C01_Mosaic C01_MosaicInst.
 
 (* start_segment's binary search = "first tract of the chromosome whose end >= start" *)
 Theorem C01_bsearch_eq_scan : forall start c l,
@@ -70,3 +71,42 @@ Example C01_legacy_get_segment_refuted :
               label_at out 1 150 <> label_at parent 1 150.
 Proof. eexists; split; [vm_compute; reflexivity|vm_compute; congruence]. Qed.
 Print Assumptions C01_legacy_get_segment_refuted.
+
+(* Generation level.  For every chromosome list (strictly increasing, non-negative), every event list
+   ordered by (chromosome, bp), every draw stream: each child of a generation whose predecessor tiles
+   the chromosomes is the mosaic prescribed by its events and homolog draws - at EVERY position of every
+   planned interval it carries the label of the planned parental haplotype (admixed) or of its source
+   population (founder), and it tiles the chromosomes itself, so the statement propagates to every
+   generation (C02_generations_tile). *)
+Theorem C01_generation_is_mosaic :
+  forall chroms ends,
+  length ends = length chroms ->
+  (forall i e, nth_error ends i = Some e -> fst e = MAXC) ->
+  incr chroms -> (forall c, In c chroms -> 0 <= c) -> chroms <> [] ->
+  forall prev ds, gen_tiles chroms prev -> Forall (draws_ok chroms prev) ds ->
+  exists g, sim_generation chroms ends prev ds = Ok g /            Forall2 (is_mosaic chroms ends prev) ds g.
+Proof. exact generation_is_mosaic. Qed.
+Print Assumptions C01_generation_is_mosaic.
+
+(* generic form: any segment source with get_segment's contract *)
+Theorem C01_sim_sample_mosaic :
+  forall gs chroms ends p_pop ha hb prev (lab : bool -> Z -> Z -> option Z),
+  length ends = length chroms ->
+  (forall i e, nth_error ends i = Some e -> fst e = MAXC) ->
+  incr chroms ->
+  (forall (h : bool) c a e m, In c chroms -> 0 <= a -> a <= e -> e <= MAXC ->
+     exists g, gs p_pop (hap_of ha hb h) c a e m prev = Ok g /\ run_ok c (a - 1) g e /               forall p, a <= p <= e -> label_at g c p = lab h c p) ->
+  forall h0 hdraws evs,
+  chroms <> [] -> (length chroms <= length hdraws)%nat -> evs_ok chroms 0 (-1) evs ->
+  exists out, sim_sample gs chroms ends p_pop ha hb prev h0 hdraws evs = Ok out /\ tiles chroms out /    Forall (good lab out) (plan chroms ends h0 hdraws evs).
+Proof. exact sim_sample_mosaic. Qed.
+Print Assumptions C01_sim_sample_mosaic.
+
+(* the child-level checker evaluated on the implementation's children decides the mosaic statement
+   at every position *)
+Theorem C01_holds_child_sound : forall k child,
+  holds_child k = true -> c_obs k = Ok child -> c_pop k = 0 ->
+  forall c a b (w : bool), In (c, a, b, w) (plan (c_chroms k) (c_ends k) (c_h0 k) (c_hd k) (c_evs k)) ->
+  forall p, a <= p <= b -> label_at child c p = label_at (if w then c_pb k else c_pa k) c p.
+Proof. exact holds_child_sound. Qed.
+Print Assumptions C01_holds_child_sound.
